@@ -28,7 +28,7 @@ INDEPENDENT = ("copy", "full_like", "bin", "un", "cast", "get", "cumsum")
 # (stock_helper.stock_stack is not called: on the pinned tree it always raises a ValidationError, because it builds the stacked
 #  stock without dims; it is not exported from the package and no listed property speaks about it)
 API_CALLS = ("neutral_arithmetic", "to_df", "from_df", "set_values_from_df", "stack", "split", "stock_from_arrays", "lifetime_prms",
-             "to_stock_type", "sum_values", "items_where", "from_dims_superset")
+             "to_stock_type", "sum_values", "items_where", "from_dims_superset", "system_export")
 
 
 def generate(tier, rng):
@@ -255,6 +255,43 @@ def run_api(case):
         a = arr(ds)
         inputs = [a]
         f = lambda: (a.sum_values(), a.sum_values_over(("g",)), a.sum_values_to(("g",)), a.cast_values_to(fd.DimensionSet(dim_list=[t, g, e])))
+        outputs_of = lambda res: []
+    elif call == "system_export":
+        # a system assembled from existing flow and stock arrays, then every export of it; the arrays hold ordinary numbers next to
+        # left-overs of cancellation (a few 1e-17 beside 50), exact zeros, and -- every other time -- whole numbers in integer arrays
+        import tempfile
+        import shutil
+        import flodym.export as fe
+        procs = fd.make_processes(["sysenv", "use"])
+
+        def noisy(a):
+            v = a.values
+            if case["seed"] % 2 and case["seed"] % 3 == 0:
+                a.values = v.astype(np.int64)
+                return a
+            v.flat[0], v.flat[1], v.flat[2], v.flat[3], v.flat[4] = 50.0, 3e-17, -4e-18, 0.0, 2.5e-19
+            return a
+        f1 = fd.Flow(dims=ds, values=noisy(arr(ds)).values, name="sysenv => use", from_process=procs["sysenv"], to_process=procs["use"])
+        f2 = fd.Flow(dims=fd.DimensionSet(dim_list=[g, t]), values=noisy(arr(fd.DimensionSet(dim_list=[g, t]))).values, name="use => sysenv",
+                     from_process=procs["use"], to_process=procs["sysenv"])
+        st = fd.SimpleFlowDrivenStock(dims=ds, inflow=noisy(arr(ds, fd.StockArray)), outflow=noisy(arr(ds, fd.StockArray, 0, 3)),
+                                      stock=noisy(arr(ds, fd.StockArray)), name="in use", process=procs["use"])
+        inputs = [f1, f2, st]
+
+        def f():
+            mfa = fd.MFASystem(dims=fd.DimensionSet(dim_list=[t, g]), parameters={}, processes=procs,
+                               flows={"sysenv => use": f1, "use => sysenv": f2}, stocks={"in use": st})
+            tmp = tempfile.mkdtemp(prefix="flodym-verif-io-")
+            try:
+                fe.convert_to_dict(mfa, type="numpy")
+                fe.convert_to_dict(mfa, type="pandas")
+                fe.export_mfa_to_pickle(mfa, tmp + "/m.pickle")
+                fe.export_mfa_flows_to_csv(mfa, tmp + "/flows")
+                fe.export_mfa_stocks_to_csv(mfa, tmp + "/stocks", with_in_and_out=bool(case["seed"] % 4 < 2))
+                fe.export_mfa_stocks_to_csv(mfa, tmp + "/stocks2", with_in_and_out=True)
+            finally:
+                shutil.rmtree(tmp, ignore_errors=True)
+            return mfa
         outputs_of = lambda res: []
     elif call == "items_where":
         a = arr(ds)
